@@ -4,6 +4,9 @@ import ast
 from ..model import AnalysisError
 from ..lib import (FV, decode_new, decode_call, phi_members, is_sym, is_const, is_str, strip_stores, stores_of,
                    find_assign, find_assigns, simple_assigns, local_term, cond_equiv, cond_implies, path_term)
+from ..lib import full_term  # noqa: F401
+from ..lib import (reached_iff, reached_implies, implies_reached, reached_iff_any, path_term, cond_equiv, cond_implies,  # noqa: F401
+                   else_stmts, branch_stmts, context_literals)
 from ..cfg import always_raises, walk_stmts
 from ..terms import r_neg, r_mul, r_div, r_sub, r_add
 from . import common as cm
@@ -528,13 +531,13 @@ def d7_completions(chk, repo):
         t = v.ev.term(r.value, at=r)
         pt = path_term(v, r)
         if any(hd[:2] == ("call", "Field.dot") or hd[:2] == ("call", ".dot") for hd in v.ctx.heads_in(t)):
-            chk.ob(T + "topological_charge_density::continuous-iff-requested", cond_equiv(v, pt, v.spec("method == 'continuous'")),
+            chk.ob(T + "topological_charge_density::continuous-iff-requested", reached_iff(v, r, v.spec("method == 'continuous'")),
                    "C19.D7", f"the continuous density is returned under {v.show(pt)}", v.f, r)
         else:
             w1 = v.spec("method == 'berg-luescher'")
             w2 = v.spec("method != 'continuous' and method == 'berg-luescher'")
-            chk.ob(T + "topological_charge_density::lattice-iff-requested", cond_equiv(v, pt, w1) or cond_equiv(v, pt, w2),
-                   "C19.D7", f"the lattice density is returned under {v.show(pt)}", v.f, r)
+            chk.ob(T + "topological_charge_density::lattice-iff-requested", reached_iff(v, r, w1) or reached_iff(v, r, w2),
+                   "C19.D7", f"the lattice density is returned under {v.show(full_term(v, r))}", v.f, r)
             d = decode_new(repo, v.ctx, [b for b in strip_stores(v.ctx, t)][0]) if strip_stores(v.ctx, t) else None
             okq = bool(d and d[0] == FIELD and v.eq(d[1].get("mesh"), v.spec("field.mesh")) and
                        is_const(v.ctx, d[1].get("nvdim", v.ctx.const(0)), 1) and v.eq(d[1].get("valid"), v.spec("o.valid", env={"o": o})))
